@@ -29,7 +29,7 @@ fn space_for(tier: Tier) -> Space {
             s.ast("K", 4, 64).ast("Q", 2, 64).ast("CL", 3, 64).ast("G", 5, 64).ast("AN", 3, 64).ast("U", 3, 64).ast("ALT", 3, 64).ast("NEST", 5, 64).ast("CAPQ", 5, 64).ast("BR", 4, 64);
             // one more kernel level, lighter: flags "" and "m", inputs of length <= 2
             s.ast_range("K", 5, 5, 256, 2);
-            s.tok("T", &gen::T_FULL, 3, 64).tok("T0", &gen::T_CORE, 3, 64).tok("TU", &gen::T_UNI, 3, 64).tok("TQ", &gen::T_QUANT, 4, 64).tok("TG", &gen::T_GROUP, 5, 64);
+            s.tok("T", &gen::T_FULL, 3, 64).tok("T0", &gen::T_CORE, 3, 64).tok("TU", &gen::T_UNI, 3, 64).tok("TQ", &gen::T_QUANT, 4, 64).tok("TG", &gen::T_GROUP, 5, 64).tok("TC", &gen::T_CLS, 4, 64);
             s.ast("Z", 5, 64).ast("NESTN", 4, 64);
             s.list("flagstrings", 1 + 11 + 121 + 1331, 128);
             s.list("triggers", crate::checks::c08::triggers().len() as u64, 16);
@@ -39,7 +39,7 @@ fn space_for(tier: Tier) -> Space {
         }
         Tier::Thorough => {
             s.ast("K", 5, 64).ast("Q", 3, 64).ast("CL", 3, 64).ast("G", 6, 64).ast("AN", 4, 64).ast("U", 4, 64).ast("CI", 3, 64).ast("ALT", 4, 64).ast("NEST", 6, 64).ast("GCM", 4, 64).ast("CAPQ", 6, 64).ast("BR", 5, 64);
-            s.tok("T", &gen::T_FULL, 3, 64).tok("T0", &gen::T_CORE, 5, 64).tok("TU", &gen::T_UNI, 4, 64).tok("TQ", &gen::T_QUANT, 5, 64).tok("TG", &gen::T_GROUP, 6, 64);
+            s.tok("T", &gen::T_FULL, 3, 64).tok("T0", &gen::T_CORE, 5, 64).tok("TU", &gen::T_UNI, 4, 64).tok("TQ", &gen::T_QUANT, 5, 64).tok("TG", &gen::T_GROUP, 6, 64).tok("TC", &gen::T_CLS, 5, 64);
             s.ast("Z", 6, 64).ast("NESTN", 5, 64);
             s.list("flagstrings", 1 + 11 + 121 + 1331, 128);
             s.list("triggers", crate::checks::c08::triggers().len() as u64, 16);
@@ -73,8 +73,8 @@ fn xws_crash_cases() -> Vec<String> {
 /// length 1, 2 and 3, alone, followed by a literal, and twice in a sequence (the
 /// length arithmetic of the compile-time analyses).
 pub fn extreme_count_cases() -> Vec<String> {
-    let ns = ["2147483647", "2147483648", "4294967295", "4294967296", "6148914691236517206", "9223372036854775807", "9223372036854775808", "18446744073709551615", "18446744073709551616", "99999999999999999999"];
-    let bodies = ["a", "(?:ab)", "(ab)", "(?:abc)", "[ab]", "(?:a|bc)", "(?:a|b)", ".", "\\d"];
+    let ns = ["1000", "1000000", "2147483647", "2147483648", "4294967295", "4294967296", "6148914691236517206", "9223372036854775807", "9223372036854775808", "18446744073709551615", "18446744073709551616", "99999999999999999999"];
+    let bodies = ["a", "(?:ab)", "(ab)", "(?:abc)", "[ab]", "(?:a|bc)", "(?:a|b)", ".", "\\d", "(?:^|a)", "(?:$|a)", "(a|$)"];
     let mut v = vec![];
     for n in ns {
         for b in bodies {
